@@ -62,6 +62,45 @@ def rate_level(chk, core, rng, count):
     chk.maximum("rate_level_deviation", worst)
 
 
+def rate_level_ties(chk, core, cases, rng):
+    """Grains at an EXACT activity tie (two slip systems equally loaded, in the same or in opposite senses): the exact
+    cases TLC flags as ties, under exact (octahedral) and generic frame rotations and under the three lattice two-folds.
+    The published rates are continuous across a tie, so the relations hold there as everywhere else."""
+    tied = [c for c in cases if any(c["tie"]) and not any(c["dead"]) and not any(c["unresolved"]) and not c.get("limit")]
+    octa = np.round(Rotation.create_group("O").as_matrix())
+    worst, n_done = 0.0, 0
+    for ci, c in enumerate(tied):
+        phase, fabric = kernel.FAB[c["fab"]]
+        A, L, f = kernel.case_inputs(c, None)
+        n = len(f)
+        PAR = PARS[ci % len(PARS)]
+
+        def rates(A_, L_):
+            return core.derivatives(c["regime"], phase, fabric, n, A_.copy(), f.copy(), (L_ + L_.T) / 2, L_, np.zeros((3, 3)), PAR["p"], PAR["n"], PAR["lam"], PAR["M"], PAR["phi"])
+
+        o1, df1 = rates(A, L)
+        s = max(1.0, float(np.abs(o1).max()))
+        sf = max(1.0, float(np.abs(df1).max()))
+        for qname, Q in (("octahedral", octa[1 + ci % 23]), ("generic", Rotation.random(random_state=int(rng.integers(1 << 30))).as_matrix())):
+            o2, df2 = rates(np.einsum("gij,kj->gik", A, Q), Q @ L @ Q.T)
+            dev = max(float(np.abs(o2 - np.einsum("gij,kj->gik", o1, Q)).max()) / s, float(np.abs(df2 - df1).max()) / sf)
+            worst = max(worst, dev)
+            if dev > 1e-9:
+                chk.violation(dict(level="rates", clause="frame-rotation", fabric=c["fab"], regime=c["regime"], tie=True),
+                              f"rates of a grain at an exact activity tie are not frame-indifferent ({qname} rotation): deviation {dev:.3g}", dict(case=dict(fab=c["fab"], regime=c["regime"], L=c["L"], As=c["As"], f=c["f"]), Q=Q.tolist(), par=PAR))
+        for S in pairs.TWOFOLDS:
+            o3, df3 = rates(np.einsum("ij,gjk->gik", S, A), L)
+            dev = max(float(np.abs(o3 - np.einsum("ij,gjk->gik", S, o1)).max()) / s, float(np.abs(df3 - df1).max()) / sf)
+            worst = max(worst, dev)
+            if dev > 1e-9:
+                chk.violation(dict(level="rates", clause="crystal-two-fold", fabric=c["fab"], regime=c["regime"], tie=True),
+                              f"rates of a grain at an exact activity tie are not invariant under a lattice two-fold: deviation {dev:.3g}", dict(case=dict(fab=c["fab"], regime=c["regime"], L=c["L"], As=c["As"], f=c["f"]), S=S.tolist(), par=PAR))
+        n_done += 1
+        chk.count(("tie", kernel.case_key(c)))
+    chk.maximum("rate_level_deviation_at_ties", worst)
+    chk.cov["exact_tie_cases_under_frame_and_twofold_relations"] = n_done
+
+
 def main(tier):
     chk = Check("C04", tier)
     quick = tier != "thorough"
@@ -76,6 +115,7 @@ def main(tier):
 
     rng = np.random.default_rng(SEED + 44)
     rate_level(chk, core, rng, 180 if quick else 3000)
+    rate_level_ties(chk, core, cases, rng)
     events, meta = [], {}
     for si, sc in enumerate(scens):
         o0, f0 = pairs.initial(sc, rng)
